@@ -408,6 +408,37 @@ static void build_attrs(const std::string& tier) {
     }
 }
 
+// wide complex types: N attribute uses with N around the row size (64) of the scanners' attribute-presence bookkeeping; the last two uses are one
+// required and one defaulted attribute; the first item gives all N attributes, the later items of the same type give subsets
+static void build_wide_attrs() {
+    for (int N : {10, 63, 64, 65, 66, 67, 70, 129, 130, 131}) {
+        BCase bc;
+        bc.desc = "attrs wide N=" + std::to_string(N) + " (a1..a" + std::to_string(N - 2) + " optional, req required, def default=7)";
+        std::string s = XSD_HEAD;
+        s += R_AND_W + w_decl("<xs:element ref=\"t:e\"/>");
+        s += "<xs:element name=\"e\"><xs:complexType>\n";
+        std::string all;
+        for (int i = 1; i <= N - 2; i++) { s += "<xs:attribute name=\"a" + std::to_string(i) + "\" type=\"xs:integer\"/>\n"; all += " a" + std::to_string(i) + "=\"" + std::to_string(i) + "\""; }
+        s += "<xs:attribute name=\"req\" type=\"xs:integer\" use=\"required\"/>\n<xs:attribute name=\"def\" type=\"xs:integer\" default=\"7\"/>\n";
+        s += "</xs:complexType></xs:element>\n</xs:schema>\n";
+        bc.files["/v/s.xsd"] = s;
+        auto item = [&](const std::string& attrs, bool hasReq, int def /*0 absent,1 given 8*/, bool claim) {
+            Item it; it.xml = "<t:e" + attrs + "/>";
+            it.expect = hasReq ? 0 : 1; it.why = hasReq ? "valid" : "cvc-complex-type.4: required attribute missing";
+            if (hasReq && claim) { it.claimAttrs = true; it.attrs.push_back("req=1=spec"); it.attrs.push_back(def ? "def=8=spec" : "def=7=dflt"); }
+            bc.items.push_back(it);
+        };
+        item(all + " req=\"1\" def=\"8\"", true, 1, false);     // registers every declaration, in document order
+        item(" req=\"1\" def=\"8\"", true, 1, true);
+        item(" def=\"8\"", false, 1, false);
+        item(" req=\"1\"", true, 0, true);
+        item("", false, 0, false);
+        item(all + " req=\"1\"", true, 0, false);
+        item(" a1=\"1\" req=\"1\" def=\"8\"", true, 1, false);
+        BCASES.push_back(bc);
+    }
+}
+
 // ================================================================================================ content kinds
 static void build_content(const std::string& tier) {
     (void)tier;
@@ -805,7 +836,7 @@ static bool setup_space(const std::string& space, const std::string& tier, const
         R.extra_json = "\"bounds\":{\"witnesses\":6}";
         return true;
     }
-    if (space == "attrs") build_attrs(tier);
+    if (space == "attrs") { build_attrs(tier); build_wide_attrs(); }
     else if (space == "content") build_content(tier);
     else if (space == "types") build_types(tier);
     else if (space == "wild") { build_wild(tier); build_wild_nons(); }
